@@ -105,7 +105,8 @@ def job(arg):
 
     with numpy.errstate(all="ignore"):
         for _ in range(count):
-            tname = ["float32", "float64", "float"][int(rng.integers(0, 3))]
+            mode = ["float32", "float64", "float", "mixed-widths", "deep_first=False", "enable_alt"][int(rng.integers(0, 6))]
+            tname = mode if mode in ("float32", "float64", "float") else ["float32", "float64"][int(rng.integers(0, 2))]
             t = getattr(numpy, tname) if tname != "float" else float  # "float": the untyped context, Python target
             tgt = targets.numpy if tname != "float" else targets.python
             wide = tname == "float64"
@@ -118,30 +119,37 @@ def job(arg):
                 return body(ctx, list(args))
 
             f.__signature__ = inspect.Signature([inspect.Parameter("ctx", inspect.Parameter.POSITIONAL_OR_KEYWORD)] + [inspect.Parameter(nm, inspect.Parameter.POSITIONAL_OR_KEYWORD, annotation=float) for nm in names])
-            desc = dict(dtype=tname, symbols=names, plan=[(k, list(o)) for k, o in plan], tail=list(tail))
-            n[tname] = n.get(tname, 0) + 1
+            desc = dict(dtype=tname, mode=mode, symbols=names, plan=[(k, list(o)) for k, o in plan], tail=list(tail))
+            key = mode
+            n[key] = n.get(key, 0) + 1
+            types = [t] * nsym
+            if mode == "mixed-widths":
+                types = [numpy.float32 if i % 2 == 0 else numpy.float64 for i in range(nsym)]
+                if any(k in ("upcast_downcast", "downcast_upcast") for k, _ in plan) or nsym < 2:
+                    n[key] -= 1
+                    continue
             try:
-                ctx = fa.Context(paths=[fa.algorithms])
+                ctx = fa.Context(paths=[fa.algorithms], enable_alt=True) if mode == "enable_alt" else fa.Context(paths=[fa.algorithms])
                 if tname == "float" and any(k in ("upcast_downcast", "downcast_upcast") for k, _ in plan):
-                    n[tname] -= 1
+                    n[key] -= 1
                     continue  # casts need sized types
-                g = ctx.trace(f, *([t] * nsym))
+                g = ctx.trace(f, *types)
                 f1 = tgt.as_function(g, debug=0) if tname != "float" else tgt.as_function(g)
             except NotImplementedError:
-                n[tname] -= 1
+                n[key] -= 1
                 continue
             except Exception as e:
-                n[tname] -= 1
+                n[key] -= 1
                 continue  # the un-rewritten graph is C05's business
             try:
-                g2 = g.rewrite(tgt, fa.rewrite)
+                g2 = g.rewrite(tgt, fa.rewrite, deep_first=False) if mode == "deep_first=False" else g.rewrite(tgt, fa.rewrite)
                 f2 = tgt.as_function(g2, debug=0) if tname != "float" else tgt.as_function(g2)
             except Exception as e:
-                rec(tname, what="rewriting / printing the rewritten graph raised %r" % (e,), graph=desc)
+                rec(key, what="rewriting / printing the rewritten graph raised %r" % (e,), graph=desc)
                 continue
             tiny = float(numpy.finfo(t if tname != "float" else numpy.float64).smallest_normal)
             for k in range(8):
-                xs = [t(GRID[int(rng.integers(0, len(GRID)))]) for _ in range(nsym)]
+                xs = [tt(GRID[int(rng.integers(0, len(GRID)))]) for tt in types]
                 try:
                     cache = {}
                     interpret(g.operands[-1], dict(zip(names, xs)), cache, sem)
@@ -157,18 +165,18 @@ def job(arg):
                 try:
                     b = f2(*xs)
                 except Exception as e:
-                    rec(tname, what="the rewritten function raised %r" % (e,), graph=desc, inputs=[repr(v) for v in xs])
+                    rec(key, what="the rewritten function raised %r" % (e,), graph=desc, inputs=[repr(v) for v in xs])
                     break
                 a_, b_ = numpy.asarray(a), numpy.asarray(b)
                 same = bool(a_ == b_) if not (numpy.isnan(a_) and numpy.isnan(b_)) else True
                 if not same or (tname != "float" and a_.dtype != b_.dtype):
-                    rec(tname, what="original %r, rewritten %r" % (a, b), graph=desc, inputs=[repr(v) for v in xs])
+                    rec(key, what="original %r, rewritten %r" % (a, b), graph=desc, inputs=[repr(v) for v in xs])
                     break
     return n, fails
 
 
 def run(rep, tier, prop="C04"):
-    per = 800 if tier == "quick" else 12000
+    per = 1600 if tier == "quick" else 24000
     jobs = [(core.SEED * 67867967 + 11 * k, per // 16) for k in range(16)]
     agg, seen = {}, {}
     with mp.get_context("fork").Pool(core.NPROC) as pool:
@@ -177,7 +185,7 @@ def run(rep, tier, prop="C04"):
                 seen[k] = seen.get(k, 0) + v
             for k, lst in fails.items():
                 agg.setdefault(k, []).extend(lst)
-    for key in ("float32", "float64", "float"):
+    for key in ("float32", "float64", "float", "mixed-widths", "deep_first=False", "enable_alt"):
         lst = agg.get(key, [])
         rep.add(core.decided("%s/bounded/rewrite-preserves-value/%s" % (prop, key), prop, not lst and seen.get(key, 0) > 0, functions=("rewrite.Rewriter", "expr.Expr.rewrite"), text="bounded stand-in: %d random graphs rewritten, both versions executed" % seen.get(key, 0), detail=dict(failures=lst[:3], graphs=seen.get(key, 0)), kind="bounded", solver="native-run", meta=dict(part="bounded", fails=lst[:3], key=key)))
     rep.bounded.append(dict(what="random graphs over the kinds of the statement (incl. up/downcast chains, mixed int/float constants, nested selects with combined conditions) rewritten by the real rewrite module after the NumPy target's pass; original and rewritten graph executed through the NumPy printer and compared wherever no node of the original is NaN, infinite or subnormal", bound="%d seeded graphs of 2..8 operation nodes over 1..3 symbols, float32 and float64, 8 input points each" % per, counted_as_proved=False))
@@ -188,4 +196,5 @@ def replay(o):
     if meta.get("part") != "bounded":
         return None
     fails = meta.get("fails") or []
-    return dict(replayed=bool(fails), failing_inputs=fails, witness_class="rewrite %s: %s" % (meta.get("key"), "; ".join(sorted({str(f.get("what", ""))[:50] for f in fails}))))
+    cats = sorted({"raises" if "raised" in str(f.get("what", "")) else "result differs" for f in fails})
+    return dict(replayed=bool(fails), failing_inputs=fails, witness_class="rewrite %s: %s" % (meta.get("key"), ", ".join(cats)))
